@@ -6,6 +6,7 @@ import torch
 from typing import Sequence, Union, Dict, List
 from xitorch._utils.exceptions import GetSetParamsError
 from xitorch._utils.attr import get_attr, set_attr, del_attr
+from xitorch._utils import verif_hooks as _vh
 
 __all__ = ["EditableModule"]
 
@@ -339,6 +340,8 @@ class EditableModule(object):
         copy_tensors0 = [tensor.clone().detach().requires_grad_() for tensor in all_tensors]
         copy_tensors = copy.copy(copy_tensors0)
         _set_tensors(self, copy_tensors)
+        if _vh.ENABLED:
+            _vh.emit("em.probe", obj=self, phase="set")
 
         # run the method and see which one has the gradients
         output = method(*args, **kwargs)
@@ -350,6 +353,8 @@ class EditableModule(object):
         # return the original tensor
         all_tensors_copy = copy.copy(all_tensors)
         _set_tensors(self, all_tensors_copy)
+        if _vh.ENABLED:
+            _vh.emit("em.probe", obj=self, phase="restore")
 
         names = []
         params = []
